@@ -160,6 +160,10 @@ func (o *Operator) HandleDeploy(ctx context.Context, req *workerpb.DeployOperato
 	o.mu.Lock()
 	defer o.mu.Unlock()
 
+	// A checkpoint half aligned for a previous assembly can never complete. Left
+	// in place it rejects every barrier of the new assembly as an ID mismatch.
+	o.checkpoint = nil
+
 	o.Logger.Info("deploy command",
 		"operators", req.Operators,
 		"keyGroupCount", req.KeyGroupCount,
